@@ -206,6 +206,10 @@ impl WriteCircuitBreaker {
 }
 
 fn current_timestamp() -> u64 {
+    #[cfg(feature = "verif-hooks")]
+    if let Some(now) = crate::verif::clock_override() {
+        return now;
+    }
     SystemTime::now()
         .duration_since(UNIX_EPOCH)
         .unwrap_or_default()
